@@ -63,4 +63,18 @@ CHECKS['C33'] = dict(category='model_checking', engine=E4, design='3/C33',
     technique='loom: exhaustive (preemption-bounded) interleaving exploration of the real MemoryPool, linearizability oracle by brute force',
     text='41 two- and three-thread bodies of try_allocate/allocate/resize/drop on the real pool with loom atomics; every interleaving within preemption bound 2 (quick) / 3 and unbounded for two threads (thorough); each execution must be explainable by a sequential order and account exactly.',
     note='Only src/execution/memory.rs is compiled under loom (via #[path]); memory-ordering effects are those loom models.')
+CHECKS.update({
+    'C22': dict(category='exploration', engine=E1, design='3/C22',
+                technique='bounded-exhaustive enumeration of table pairs x join statements, differential against SQLite',
+                text='All pairs of tables with <= 2 (quick) / 3 (thorough) rows over NULL + 2 key values for int64/int64, int32/int64, utf8 (quick) plus date and two-column keys (thorough), every join type with residual ON predicates, WHERE placement, EXISTS/NOT EXISTS/IN and joins against an aggregate subquery, memory and Parquet on either side.',
+                note='SQLite 3.40 reference; build-side flips by size (x1000 replicas) and runtime-filter wiring (hook H1) are thorough-tier axes.'),
+    'C23': dict(category='exploration', engine=E1, design='3/C23',
+                technique='bounded-exhaustive enumeration of outer/inner tables x subquery shapes x three executions, differential against SQLite',
+                text='Every single outer row and every two-row outer with a repeated correlation value (quick) / all outers of <= 3 rows (thorough) against every inner table of <= 2/3 rows over {NULL,1,2}^2; [NOT] EXISTS, [NOT] IN, scalar MIN/MAX/COUNT/SUM subqueries, correlated or not, in WHERE and SELECT; executed with the production optimizer, without the decorrelation rules, and unoptimized.',
+                note='SQLite 3.40 reference; a known finding (same-named inner column captures the outer reference inside IN) is matched by an explicit deviant statement.'),
+    'C25': dict(category='exploration', engine=E1, design='3/C25',
+                technique='bounded-exhaustive enumeration of tables x ORDER BY specs x LIMIT/OFFSET pairs x sort paths, sortedness + slice oracle',
+                text='All multisets of 1..3 (quick) / 4 (thorough) rows with NULLs and ties for 2 (quick) / 5 (thorough) key types, 18 ORDER BY specs, 15 / 42 LIMIT-OFFSET pairs, on one batch, three batches and a 1-byte memory limit (spilled sort), plus ordinal/alias/expression keys.',
+                note='The oracle checks sortedness under the stated keys (default NULLS LAST) and the slice up to ties against the SQLite multiset.'),
+})
 PENDING_REASON = 'check not built yet in this round (planned in DESIGN.md section 3); not claimed until it exists'
